@@ -193,6 +193,17 @@ fn run19_inner(op: &str, a: &[Arg]) -> String {
         }
         "conv.ET" => match f(&a[0]) { Val::E(e) => obs(&Val::T(TruthTable::from(&e))), _ => panic!("HARNESS") },
         "conv.TE" => match f(&a[0]) { Val::T(t) => obs(&Val::E(t.to_expression_trivial())), _ => panic!("HARNESS") },
+        // conversion of a conjunction of n distinct variables: only the outcome kind is compared
+        "limit" => {
+            let n: usize = match &a[0] { Arg::A(x) | Arg::X(x) => x.parse().expect("HARNESS: limit"), _ => panic!("HARNESS") };
+            let lits: Vec<Expression<String>> = (0..n)
+                .map(|i| biodivine_boolean_functions::expressions::ExpressionNode::Literal(format!("v{}", i)).into())
+                .collect();
+            match Bdd::try_from(Expression::n_ary_and(&lits)) {
+                Ok(b) => format!("ok{}", b.inputs().len()),
+                Err(_) => "EXC:RuntimeError".into(),
+            }
+        }
         "conv.EB" => match f(&a[0]) {
             Val::E(e) => match Bdd::try_from(e) { Ok(b) => obs(&Val::B(b)), Err(_) => "EXC:RuntimeError".into() },
             _ => panic!("HARNESS"),
